@@ -86,7 +86,7 @@ theorem specReq_liveIssued (scfg : SpecCfg) (s : SpecSt) (q : Req) (o : Obs) (s'
           all_goals cases hc
           all_goals first | exact hX | skip
           -- the cookie's token was checked against the issued set
-          rename_i hiss _ _
+          rename_i hiss _ _ _
           apply keysIn_put _ _ _ _ hX
           simp only [Bool.not_eq_true', Bool.not_eq_false, List.contains_eq_mem, decide_eq_true_eq] at hiss
           exact hiss
@@ -192,18 +192,20 @@ theorem specReq_ok_safe (scfg : SpecCfg) (s : SpecSt) (q : Req) (o : Obs) (s' : 
           · rename_i hiss
             split at hc
             · cases hc
-            · rename_i hkeep
-              split at hc
+            · split at hc
               · cases hc
-              · rename_i hprobe
-                refine ⟨t, hck, hne, ?_, ?_, ?_⟩
-                · simp only [Bool.not_eq_true', Bool.not_eq_false, List.contains_eq_mem, decide_eq_true_eq] at hiss
-                  exact hiss
-                · simp only [Bool.not_eq_true', Bool.not_eq_false, Bool.or_eq_true, Bool.and_eq_true,
-                    decide_eq_true_eq, List.contains_eq_mem] at hkeep
-                  exact hkeep
-                · intro hf
-                  simp only [hf, Bool.not_false, Bool.true_and, Bool.not_eq_true', Bool.not_eq_false] at hprobe
-                  exact hprobe
+              · rename_i hkeep
+                split at hc
+                · cases hc
+                · rename_i hprobe
+                  refine ⟨t, hck, hne, ?_, ?_, ?_⟩
+                  · simp only [Bool.not_eq_true', Bool.not_eq_false, List.contains_eq_mem, decide_eq_true_eq] at hiss
+                    exact hiss
+                  · simp only [Bool.not_eq_true', Bool.not_eq_false, Bool.or_eq_true, Bool.and_eq_true,
+                      decide_eq_true_eq, List.contains_eq_mem] at hkeep
+                    exact hkeep
+                  · intro hf
+                    simp only [hf, Bool.not_false, Bool.true_and, Bool.not_eq_true', Bool.not_eq_false] at hprobe
+                    exact hprobe
 
 end C16
